@@ -39,78 +39,185 @@ func isMuCall(st ast.Stmt, method string) bool {
 	return isSel(sel.X, "b", "mu")
 }
 
+// batcherMethods returns the methods of *Batcher with their receiver names
+func batcherMethods(f *ast.File) map[*ast.FuncDecl]string {
+	out := map[*ast.FuncDecl]string{}
+	for _, d := range f.Decls {
+		fd, ok := d.(*ast.FuncDecl)
+		if !ok || fd.Recv == nil || len(fd.Recv.List) != 1 || fd.Body == nil {
+			continue
+		}
+		se, ok := fd.Recv.List[0].Type.(*ast.StarExpr)
+		if !ok {
+			continue
+		}
+		if id, ok := se.X.(*ast.Ident); !ok || id.Name != "Batcher" {
+			continue
+		}
+		if len(fd.Recv.List[0].Names) != 1 {
+			continue
+		}
+		out[fd] = fd.Recv.List[0].Names[0].Name
+	}
+	return out
+}
+
+func isMuCallOf(st ast.Stmt, recv, method string) bool {
+	es, ok := st.(*ast.ExprStmt)
+	if !ok {
+		return false
+	}
+	return isMuCallExpr(es.X, recv, method)
+}
+
+func isMuCallExpr(e ast.Expr, recv, method string) bool {
+	call, ok := e.(*ast.CallExpr)
+	if !ok {
+		return false
+	}
+	sel, ok := call.Fun.(*ast.SelectorExpr)
+	if !ok || sel.Sel.Name != method {
+		return false
+	}
+	return isSel(sel.X, recv, "mu")
+}
+
+func blockEndsWithReturn(b *ast.BlockStmt) bool {
+	if b == nil || len(b.List) == 0 {
+		return false
+	}
+	_, ok := b.List[len(b.List)-1].(*ast.ReturnStmt)
+	return ok
+}
+
+// unlockBefore reports whether a (non-deferred) mu.Unlock() that lies on a path falling through to pos
+// precedes pos in the function: an Unlock inside a block that ends with return does not count.
+func unlockBefore(body *ast.BlockStmt, recv string, pos token.Pos) bool {
+	found := false
+	var walk func(b *ast.BlockStmt, returns bool)
+	walk = func(b *ast.BlockStmt, returns bool) {
+		if b == nil {
+			return
+		}
+		ret := returns || blockEndsWithReturn(b)
+		for _, st := range b.List {
+			if st.Pos() >= pos {
+				break
+			}
+			if isMuCallOf(st, recv, "Unlock") && !ret {
+				found = true
+			}
+			switch x := st.(type) {
+			case *ast.IfStmt:
+				walk(x.Body, returns)
+				if eb, ok := x.Else.(*ast.BlockStmt); ok {
+					walk(eb, returns)
+				}
+			case *ast.BlockStmt:
+				walk(x, returns)
+			case *ast.ForStmt:
+				walk(x.Body, returns)
+			case *ast.RangeStmt:
+				walk(x.Body, returns)
+			}
+		}
+	}
+	walk(body, false)
+	return found
+}
+
+// lockedAt: the function takes mu itself (top-level Lock before pos) and has not released it on the way to pos
+func lockBefore(body *ast.BlockStmt, recv string, pos token.Pos) bool {
+	for _, st := range body.List {
+		if st.Pos() < pos && isMuCallOf(st, recv, "Lock") {
+			return true
+		}
+	}
+	return false
+}
+
 func genBatcher(repo string) (string, string, error) {
 	fset := token.NewFileSet()
 	f, err := parser.ParseFile(fset, filepath.Join(repo, "pipeline", "batch.go"), nil, 0)
 	if err != nil {
 		return "", "", err
 	}
-	var trySend, stop *ast.FuncDecl
-	for _, d := range f.Decls {
-		if fd, ok := d.(*ast.FuncDecl); ok && fd.Recv != nil {
-			switch fd.Name.Name {
-			case "trySendBatchAndUnlock":
-				trySend = fd
-			case "Stop":
-				if len(fd.Recv.List) == 1 {
-					if se, ok := fd.Recv.List[0].Type.(*ast.StarExpr); ok {
-						if id, ok := se.X.(*ast.Ident); ok && id.Name == "Batcher" {
-							stop = fd
-						}
-					}
+	methods := batcherMethods(f)
+	// 1. the send into fullBatches: exactly one, in a method that is entered with mu held (trySendBatchAndUnlock) or
+	//    takes it itself; it must come before any Unlock on its path
+	var sendFn *ast.FuncDecl
+	var sendPos token.Pos
+	for fd, recv := range methods {
+		ast.Inspect(fd.Body, func(n ast.Node) bool {
+			if s, ok := n.(*ast.SendStmt); ok && isSel(s.Chan, recv, "fullBatches") {
+				if sendFn != nil {
+					err = fmt.Errorf("two sends into fullBatches")
 				}
+				sendFn, sendPos = fd, s.Pos()
 			}
-		}
+			return true
+		})
 	}
-	if trySend == nil || stop == nil {
-		return "", "", fmt.Errorf("Batcher.trySendBatchAndUnlock / Batcher.Stop not found")
+	if err != nil {
+		return "", "", err
 	}
-	// top-level statements of trySendBatchAndUnlock: position of the send and of the top-level Unlock
-	sendIdx, unlockIdx := -1, -1
-	for i, st := range trySend.Body.List {
-		if s, ok := st.(*ast.SendStmt); ok && isSel(s.Chan, "b", "fullBatches") {
-			if sendIdx != -1 {
-				return "", "", fmt.Errorf("two sends into fullBatches")
-			}
-			sendIdx = i
-		}
-		if isMuCall(st, "Unlock") {
-			if unlockIdx != -1 {
-				return "", "", fmt.Errorf("two top-level mu.Unlock calls")
-			}
-			unlockIdx = i
-		}
+	if sendFn == nil {
+		return "", "", fmt.Errorf("no send into fullBatches found in the methods of Batcher")
 	}
-	if sendIdx == -1 || unlockIdx == -1 {
-		return "", "", fmt.Errorf("trySendBatchAndUnlock: send or unlock not found at top level")
+	if sendFn.Name.Name != "trySendBatchAndUnlock" && !lockBefore(sendFn.Body, methods[sendFn], sendPos) {
+		return "", "", fmt.Errorf("%s: the send into fullBatches is in a method that neither is trySendBatchAndUnlock nor locks mu itself", sendFn.Name.Name)
 	}
-	sendUnderMu := sendIdx < unlockIdx
-	// Stop: close(b.fullBatches) must sit (possibly nested in an if) between mu.Lock and mu.Unlock
-	lockIdx, unlockS, closeIdx := -1, -1, -1
-	for i, st := range stop.Body.List {
-		if isMuCall(st, "Lock") && lockIdx == -1 {
-			lockIdx = i
-		}
-		if isMuCall(st, "Unlock") && unlockS == -1 {
-			unlockS = i
-		}
-		found := false
-		ast.Inspect(st, func(n ast.Node) bool {
+	sendUnderMu := !unlockBefore(sendFn.Body, methods[sendFn], sendPos)
+	// 2. close(fullBatches): exactly one, in Stop or in a method Stop calls; between mu.Lock() and the Unlock
+	//    (explicit later Unlock, or a deferred one)
+	var closeFn *ast.FuncDecl
+	var closePos token.Pos
+	for fd, recv := range methods {
+		ast.Inspect(fd.Body, func(n ast.Node) bool {
 			if c, ok := n.(*ast.CallExpr); ok {
-				if id, ok := c.Fun.(*ast.Ident); ok && id.Name == "close" && len(c.Args) == 1 && isSel(c.Args[0], "b", "fullBatches") {
-					found = true
+				if id, ok := c.Fun.(*ast.Ident); ok && id.Name == "close" && len(c.Args) == 1 && isSel(c.Args[0], recv, "fullBatches") {
+					if closeFn != nil {
+						err = fmt.Errorf("two close(fullBatches)")
+					}
+					closeFn, closePos = fd, c.Pos()
 				}
 			}
 			return true
 		})
-		if found && closeIdx == -1 {
-			closeIdx = i
-		}
 	}
-	if closeIdx == -1 {
+	if err != nil {
+		return "", "", err
+	}
+	if closeFn == nil {
 		return "", "", fmt.Errorf("Stop: close(b.fullBatches) not found")
 	}
-	closeUnderMu := lockIdx != -1 && lockIdx < closeIdx && closeIdx < unlockS
+	if closeFn.Name.Name != "Stop" {
+		// must be reachable from Stop by a direct call on the receiver
+		var stop *ast.FuncDecl
+		for fd := range methods {
+			if fd.Name.Name == "Stop" {
+				stop = fd
+			}
+		}
+		called := false
+		if stop != nil {
+			ast.Inspect(stop.Body, func(n ast.Node) bool {
+				if c, ok := n.(*ast.CallExpr); ok {
+					if sel, ok := c.Fun.(*ast.SelectorExpr); ok && sel.Sel.Name == closeFn.Name.Name {
+						if id, ok := sel.X.(*ast.Ident); ok && id.Name == methods[stop] {
+							called = true
+						}
+					}
+				}
+				return true
+			})
+		}
+		if !called {
+			return "", "", fmt.Errorf("close(fullBatches) is in %s, which Batcher.Stop does not call directly", closeFn.Name.Name)
+		}
+	}
+	recv := methods[closeFn]
+	closeUnderMu := lockBefore(closeFn.Body, recv, closePos) && !unlockBefore(closeFn.Body, recv, closePos)
 	atomic := sendUnderMu && closeUnderMu
 	content := fmt.Sprintf(`(* GENERATED from /repo/pipeline/batch.go by harness/gen (translator "batcher") — do not edit.
    send into fullBatches before the sealing path's mu.Unlock(): %v;  Stop closes fullBatches under mu: %v *)
